@@ -17,22 +17,29 @@ RULE = ('Hypothesis cases over (max=W, min, key seed, data seed/kind, prefix len
         '(failure probability < 1e-15 per case, derivation in DESIGN.md C11) and all boundaries outside the tail lie on the '
         'alignment grid of S. Keys: independent keys, keys differing in one '
         'bit of the multiplier half, and keys differing in the top bit of the mask half give different boundary sets on '
-        '>=400 chunks. Non-trivial: the two streams\' boundary sets differ before they re-synchronise.')
+        '>=400 chunks. Repository level: after a small leading file changes size or 8 bytes of a file are replaced, the next snapshot uploads nothing '
+        'that lies wholly before the change or more than 512*max behind it. Non-trivial: the two streams\' boundary sets differ before they re-synchronise.')
 ASSUMPTIONS = ['PRNG (Mersenne twister) output counts as high-entropy data',
                'keys differing only in low bits of the mask half are not required to change boundaries (not claimed by the check)']
 
 
 def budget(tier):
     if tier == 'quick':
-        return {'shards': 16, 'examples': 400, 'wall': 240}
+        return {'shards': 16, 'examples': 200, 'wall': 240}
     return {'shards': 16, 'examples': 12000, 'wall': 2400}
 
 
 @st.composite
 def cases(draw):
-    kind = draw(st.sampled_from(['suffix', 'suffix', 'edit', 'edit', 'resync', 'resync', 'keys']))
+    kind = draw(st.sampled_from(['suffix', 'suffix', 'edit', 'edit', 'resync', 'resync', 'keys', 'repo']))
     kseed = draw(st.integers(0, 2 ** 32))
     dseed = draw(st.integers(0, 2 ** 32))
+    if kind == 'repo':
+        W = draw(st.integers(4, 8)) * 4
+        return {'kind': 'repo', 'max': W, 'min': draw(st.integers(1, max(1, W // 16))), 'dseed': dseed, 'kseed': kseed,
+                'encrypted': draw(st.booleans()), 'small': draw(st.integers(1, 9)), 'small2': draw(st.integers(0, 11)),
+                'big': [draw(st.integers(250, 400)) for _ in range(draw(st.integers(2, 3)))], 'n': draw(st.sampled_from([1, 2, 4])),
+                'edit': draw(st.sampled_from(['resize-first', 'resize-first', 'replace-middle']))}
     if kind in ('resync', 'keys'):
         W = draw(st.integers(4, 64)) * 4
         mn = draw(st.integers(1, max(1, W // 16)))
@@ -111,6 +118,8 @@ def boundaries(mn, mx, key, ps, adapter=None):
 
 def run_case(case):
     kind = case['kind']
+    if kind == 'repo':
+        return _repo(case)
     mn, mx = case['min'], case['max']
     key = key_of(case['kseed'])
     classes = [kind]
@@ -262,3 +271,102 @@ def _ends_of_chunks_starting_before(bs, c0, limit):
             out.append(b)
         prev = b
     return out
+
+
+def _repo(case):
+    """Repository level: after a small file in front of the stream changes its size (or a block in the middle of a file is
+    replaced), a second snapshot must upload nothing that lies more than 512*max beyond the change (files are padded to the
+    alignment, so later files keep their candidate offsets) and nothing that lies wholly before it."""
+    import os
+    from pathlib import Path
+    from .. import membackend, refimpl, world
+    W, mn = case['max'], case['min']
+    classes = ['repo', 'edit:' + case['edit'], 'encrypted' if case['encrypted'] else 'unencrypted']
+    work = env.fresh_dir('c11')
+    try:
+        s = {'hashing': {'name': 'blake2b', 'length': 20}, 'chunking': {'min_length': mn, 'max_length': W},
+             'encryption': {'cipher': {'name': 'chacha20_poly1305'}, 'kdf': {'name': 'blake2b'}} if case['encrypted'] else None}
+        store = membackend.Store()
+        backend = world.backend_for('mem', store)
+        pw = b'pw' if case['encrypted'] else None
+        key, _, _ = world.run_init(backend, password=pw, settings=s, concurrent=case['n'])
+        cred = world.Cred(pw, key)
+        src = os.path.join(work, 'src')
+        files = [{'path': 'a-small', 'content': [['r', case['dseed'] % 1000, case['small']]], 'mtime_ns': 10 ** 18}]
+        for i, k in enumerate(case['big']):
+            files.append({'path': f'big{i}', 'content': [['r', case['dseed'] % 1000 + 1 + i, k * W + i]], 'mtime_ns': 10 ** 18 + i})
+        world.write_tree(src, files)
+
+        async def snap(repo):
+            return await repo.snapshot(paths=[Path(src)])
+        world.run_cmd(backend, cred, snap, concurrent=case['n'])
+        # the change
+        if case['edit'] == 'resize-first':
+            new_small = case['small2'] if case['small2'] != case['small'] else case['small'] + 1
+            with open(os.path.join(src, 'a-small'), 'wb') as fh:
+                fh.write(random.Random(case['dseed'] + 5).randbytes(new_small))
+            changed = 'a-small'
+        else:
+            p = os.path.join(src, 'big0')
+            body = bytearray(open(p, 'rb').read())
+            at = (len(body) // 8) * 4
+            body[at:at + 8] = random.Random(case['dseed'] + 6).randbytes(8)
+            with open(p, 'wb') as fh:
+                fh.write(bytes(body))
+            changed = 'big0'
+        before = len(store.log)
+        res, _ = world.run_cmd(backend, cred, snap, concurrent=case['n'])
+        uploaded = {name for o, name in store.log[before:] if o == 'upload_stream' and name.startswith('data/')}
+        objs = store.snapshot_objects()
+        rd = refimpl.Reader(objs['config'], key, pw)
+        sn = rd.read_snapshot(res.location, objs[res.location])
+        # chunk layout of the second stream, from the snapshot itself (counter order)
+        by_counter = {}
+        fstart = {}
+        for f in sn['data']['files']:
+            for c in f['chunks']:
+                by_counter[c['counter']] = sn['chunks'][c['index']]
+        pos, layout = 0, {}
+        for ctr in sorted(by_counter):
+            d = by_counter[ctr]
+            n = len(rd.read_chunk(objs, d))
+            layout[ctr] = (pos, pos + n, rd.chunk_location(d))
+            pos += n
+        total = pos
+        real = os.path.realpath(src)
+        for f in sn['data']['files']:
+            refs = sorted(f['chunks'], key=lambda c: c['counter'])
+            if refs:
+                first = refs[0]
+                fstart[f['path']] = layout[first['counter']][0] + first['range'][0]
+        cpath = os.path.join(real, changed)
+        if cpath not in fstart and case['edit'] == 'resize-first':
+            fstart[cpath] = 0
+        cstart = fstart[cpath]
+        if case['edit'] == 'resize-first':
+            change_from, change_to = cstart, cstart + max(case['small'], case['small2'], 1) + 4
+        else:
+            at = (os.path.getsize(os.path.join(src, 'big0')) // 8) * 4
+            change_from, change_to = cstart + at, cstart + at + 8
+        far, early = [], []
+        for ctr, (a, b, loc) in layout.items():
+            if loc not in uploaded or a >= total - 2 * W:
+                continue
+            if a >= change_to + 512 * W:
+                far.append((a, b))
+            if a + W + 4 <= change_from:
+                early.append((a, b))
+        nontrivial = len(uploaded) >= 1 and total > change_to + 520 * W
+        info = {'kind': 'repo', 'max': W, 'min': mn, 'edit': case['edit'], 'stream_bytes': total, 'chunks': len(layout),
+                'uploaded_in_second_snapshot': len(uploaded), 'change_at': [change_from, change_to]}
+        if early:
+            return Outcome(fail('repo-locality', f'second snapshot re-uploaded {len(early)} chunk(s) that lie wholly before the change '
+                                f'at stream offset {change_from} (e.g. {early[0]}, max={W})'), classes, nontrivial)
+        if far:
+            return Outcome(fail('repo-resync', f'second snapshot re-uploaded {len(far)} chunk(s) more than 512*max={512 * W} bytes '
+                                f'after the change at {change_from}..{change_to} (first at {far[0][0]}, stream {total} bytes): later files '
+                                f'no longer deduplicate', far=len(far)), classes, nontrivial)
+        return Outcome(None, classes, nontrivial, info)
+    finally:
+        env.shutdown_executors()
+        env.rmtree(work)
